@@ -146,6 +146,7 @@ func (h *harness) streamCrash() {
 			seen[vis] = true
 			h.rep.Case(fmt.Sprintf("crash %s prefix %d old %q new %q", text, n, vh.Clip(old, 40), vh.Clip(new, 40)), n > 0)
 			h.rep.Count("crash:prefix")
+			h.crashThenContinue(dir, vis, n, text)
 			if vis != old && vis != new {
 				at := "start"
 				if n > 0 {
@@ -193,6 +194,54 @@ func (h *harness) streamCrash() {
 		}
 	}
 	h.pollDuringSetValues()
+}
+
+// crashThenContinue: the process stopped after n steps of a write-back; whatever files exist stay where
+// they are (plus a fixed-name <conf>.tmp holding the leftover padded with more lines, so that it is longer
+// than anything written next).  A second write-back must produce exactly what it produces in a clean
+// directory holding the same configuration file.
+func (h *harness) crashThenContinue(dir, vis string, n int, seqText string) {
+	if strings.HasPrefix(vis, "\x00") {
+		return
+	}
+	m, _, err := libRead(vis)
+	if err != nil {
+		return
+	}
+	target := filepath.Join(dir, "whatap.conf")
+	leftovers, _ := filepath.Glob(filepath.Join(dir, "whatap.conf.tmp*"))
+	pad := strings.Repeat("zzz_leftover=of the interrupted write\n", 20+len(vis)/20)
+	left := ""
+	if len(leftovers) > 0 {
+		b, _ := os.ReadFile(leftovers[0])
+		left = string(b)
+	}
+	writeFile(filepath.Join(dir, "whatap.conf.tmp"), left+pad)
+	m["written_after_the_crash"] = "yes"
+	parser := conffile.NewDefaultFileParser()
+	var werr error
+	oc := vh.Guard(func() { werr = parser.Write(target, &m) })
+	got, _ := os.ReadFile(target)
+	// reference: the same write-back in a clean directory
+	ref := filepath.Join(h.tmp, "crash-ref")
+	os.RemoveAll(ref)
+	os.MkdirAll(ref, 0o755)
+	rt := filepath.Join(ref, "whatap.conf")
+	writeFile(rt, vis)
+	m2, _, _ := libRead(vis)
+	m2["written_after_the_crash"] = "yes"
+	parser.Write(rt, &m2)
+	want, _ := os.ReadFile(rt)
+	os.RemoveAll(ref)
+	h.rep.Count("crash:then-continue")
+	h.rep.Case(fmt.Sprintf("crash-then-continue %s prefix %d leftover %d bytes", seqText, n, len(left)), true)
+	if !oc.OK() || werr != nil || string(got) != string(want) {
+		h.rep.Fail("property", "write:leftover-temp-bleeds",
+			fmt.Sprintf("a write-back after an interrupted one (stopped after %d steps; leftover temporary files: %d, plus a longer %s) produced %d bytes, a clean directory gives %d bytes (error: %v %s)",
+				n, len(leftovers), "whatap.conf.tmp", len(got), len(want), werr, oc.Panic),
+			map[string]interface{}{"sequence": seqText, "stopped_after": n, "file_at_the_stop": vis, "leftover": vh.Clip(left, 200),
+				"second_write_result": vh.Clip(string(got), 600), "expected": vh.Clip(string(want), 600)})
+	}
 }
 
 // pollDuringSetValues: a reader polls the configuration file while SetValues rewrites it; it must only
